@@ -185,7 +185,12 @@ func (a *AreaMembers) Clone() AreaMembers {
 		ids:      make([][]b6.FeatureID, len(a.ids)),
 		polygons: make([]*s2.Polygon, len(a.polygons)),
 	}
-	copy(clone.ids, a.ids)
+	for i, ids := range a.ids {
+		if ids != nil {
+			clone.ids[i] = make([]b6.FeatureID, len(ids))
+			copy(clone.ids[i], ids)
+		}
+	}
 	copy(clone.polygons, a.polygons)
 	return clone
 }
@@ -476,13 +481,16 @@ func (c *CollectionFeature) References() []b6.Reference {
 }
 
 func (c *CollectionFeature) Clone() Feature {
-	return &CollectionFeature{
+	clone := &CollectionFeature{
 		CollectionID: c.CollectionID,
 		Tags:         c.Tags.Clone(),
-		Keys:         c.Keys,
-		Values:       c.Values,
+		Keys:         make([]interface{}, len(c.Keys)),
+		Values:       make([]interface{}, len(c.Values)),
 		sorted:       c.sorted,
 	}
+	copy(clone.Keys, c.Keys)
+	copy(clone.Values, c.Values)
+	return clone
 }
 
 func (c *CollectionFeature) MergeFrom(other Feature) {
@@ -495,9 +503,11 @@ func (c *CollectionFeature) MergeFrom(other Feature) {
 
 func (c *CollectionFeature) MergeFromCollectionFeature(other *CollectionFeature) {
 	c.CollectionID = other.CollectionID
-	c.Tags = other.Tags
-	c.Keys = other.Keys
-	c.Values = other.Values
+	c.Tags = other.Tags.Clone()
+	c.Keys = make([]interface{}, len(other.Keys))
+	copy(c.Keys, other.Keys)
+	c.Values = make([]interface{}, len(other.Values))
+	copy(c.Values, other.Values)
 	c.sorted = other.sorted
 }
 
